@@ -70,6 +70,12 @@ def cases(tier):
     for ci, cj in itertools.permutations(range(len(COMPS)), 2):
         for r in ('plain', 'json'):
             out.append(('compasym', ci, cj, 'server', r))
+    # the peer hangs up right after its KEXINIT (our own writes then fail; every byte it sent is still readable): same report
+    for cat in ('kex', 'enc'):
+        for idxs in lists_upto(ALPHA[cat], 1):
+            for role in ('server', 'client'):
+                for r in ('plain', 'json'):
+                    out.append(('hangup', cat, idxs, role, r))
     # the same bytes delivered in other TCP segments: the identification line (and the KEXINIT) cut at every offset / byte by byte
     for bi in range(len(BANNERS)):
         for role in ('server', 'client'):
@@ -121,6 +127,9 @@ def build(case):
     elif kind == 'seg':
         _k, bi, _f, role, r = case
         banner = BANNERS[bi]
+    elif kind == 'hangup':
+        _k, cat, idxs, role, r = case
+        lists[cat] = [b(ALPHA[cat][i]) for i in idxs]
     elif kind == 'compasym':
         _k, ci, cj, role, r = case
         comp = COMPS[ci]
@@ -138,6 +147,8 @@ def run_case(case):
         return H.audit(srv, opts=RENDER[r] + ['-1', '--skip-rate-test']), None
     role, r, lists, c2s, comp, banner = build(case)
     faults = None
+    if case[0] == 'hangup':
+        faults = {('srv' if role == 'server' else 'cli', 0, 1): ('then_reset',)}
     if case[0] == 'seg':
         lab = 'srv' if role == 'server' else 'cli'
         faults = {(lab, 0, 0): case[2]}
